@@ -316,7 +316,7 @@ func (x *expectation) field(t *gen.TD, pol string, old reflect.Value, s *gen.Tre
 	case typ.Kind() == reflect.Ptr:
 		// a pointer is left alone, whatever it points to
 		want = deepCopy(old)
-	case t.Kind == kUnpStr:
+	case t.Kind == kUnpStr || t.Kind == kUnpInt:
 		want = deepCopy(old)
 	case typ.Kind() == reflect.Struct:
 		// structs are visited even without a setting: nested defaults apply
